@@ -165,6 +165,10 @@ def shards(tier, seed):
         [('odd', tier, 0, 1), ('nontag', tier, 0, 1), ('huge', tier, 0, 1), ('degenerate', tier, 0, 1)]
 
 
+def shard_weight(desc):
+    return {'odd-all': 3, 'main': 2}.get(desc[0], 1)
+
+
 def call_all(sv, c, text, target, els, res, full=True):
     """Every entry point on one target; returns list of (entry, exception-or-type-problem)."""
     import bs4
